@@ -360,6 +360,7 @@ func isRepoType(t types.Type) bool {
 // ---- engine-level value construction ----
 
 type Engine struct {
+	dtDepth int // nesting of structDT calls of this engine (see dtBuildMu)
 	fnMu    sync.Mutex
 	fnCodes map[*ssa.Function]int64
 	// onFreshStruct is called whenever a symbolic struct value of a named
@@ -452,7 +453,20 @@ func sortKey(t types.Type) string {
 var dtMu sync.Mutex
 var globalDT = map[string]*DTDecl{}
 
+// dtBuildMu serialises the construction of struct datatypes across the
+// executors running in parallel: a declaration is entered into globalDT before
+// its fields are known (to cut recursion through self-referential types), and
+// must not be seen by another goroutine in that state. An engine holds it for
+// its outermost structDT call only (dtDepth), so recursion does not deadlock.
+var dtBuildMu sync.Mutex
+
 func (e *Engine) structDT(t types.Type, u *types.Struct) *DTDecl {
+	if e.dtDepth == 0 {
+		dtBuildMu.Lock()
+		defer dtBuildMu.Unlock()
+	}
+	e.dtDepth++
+	defer func() { e.dtDepth-- }()
 	key := "S_" + sortKey(t)
 	dtMu.Lock()
 	if d, ok := globalDT[key]; ok {
